@@ -155,6 +155,14 @@ fn cases(tier: &str) -> Vec<Case> {
     for (what, text) in short_table_texts() {
         out.push(Case::Mutation(Some(format!("short table: {what}")), text));
     }
+    // a slot whose parameter type has the same short name in two modules: `engine::Event` in the base table,
+    // `game::Event` (incompatible) or `engine::Event` (compatible) in the derived one
+    for (compatible, ty_use) in [(true, "use engine::Event;\n"), (false, "pub type Event {\n    pub y: u64,\n}\n")] {
+        let engine = "pub type Event {\n    pub x: u32,\n    pub z: u32,\n}\npub type B {\n    vftable {\n        pub fn on_event(&self, e: *mut Event) -> u32;\n    },\n    pub p: *const u8,\n}\n";
+        let m = format!("use engine::B;\n{ty_use}pub type D {{\n    vftable {{\n        pub fn on_event(&self, e: *mut Event) -> u32;\n        pub fn extra(&self);\n    }},\n    #[base]\n    pub base: B,\n    pub q: *const u8,\n}}\n");
+        let text = format!("//@@module engine\n{engine}//@@module m\n{m}");
+        out.push(Case::Mutation(if compatible { None } else { Some("slot 0: parameter type of the same short name from another module".to_string()) }, text));
+    }
     // every pair of conventions on the same slot of base and derived table (absent = thiscall for a receiver)
     let ccs: [Option<&str>; 8] = [None, Some("C"), Some("cdecl"), Some("stdcall"), Some("fastcall"), Some("thiscall"), Some("vectorcall"), Some("system")];
     for x in ccs {
@@ -264,6 +272,15 @@ pub fn run(tier: &str, only: Option<&Value>) -> i32 {
         let outs = util::par_map(idxs.len(), |j, _| {
             let input = match &all[idxs[j]] {
                 Case::Shape(h) => to_input(&[module_of(h)]),
+                Case::Mutation(_, text) if text.starts_with("//@@module ") => {
+                    // several modules in one text: `//@@module <path>` starts each of them; the derived type is in `m`
+                    let mut modules = vec![];
+                    for part in text.split("//@@module ").skip(1) {
+                        let (path, body) = part.split_once('\n').unwrap_or((part, ""));
+                        modules.push((path.trim().to_string(), body.to_string()));
+                    }
+                    pipe::Input { modules }
+                }
                 Case::Mutation(_, text) => pipe::Input::single(text.clone()),
             };
             let v = pipe::run(&input, ps);
